@@ -146,6 +146,72 @@ def check_elements(part, zs):
         part.nontriv(z)
 
 
+ARRAY_PATTERNS = ("scrambled", "molecules", "sorted", "reversed", "one-element")
+
+
+def array_of(pattern, n, shift):
+    """n atomic numbers: scrambled over all 103 elements, a cell in file order (copies of a small molecule), sorted, reversed, one element"""
+    i = np.arange(n)
+    if pattern == "scrambled":
+        return (7 * i * i + 3 * i + shift) % 103 + 1
+    if pattern == "molecules":
+        mol = np.array([6, 6, 8, 8, 1, 1, 1, 1, 7, 16, 17, 35][: 4 + shift % 9])
+        return mol[i % len(mol)]
+    if pattern == "sorted":
+        return np.sort((5 * i + shift) % 103 + 1)
+    if pattern == "reversed":
+        return np.sort((5 * i + shift) % 103 + 1)[::-1].copy()
+    return np.full(n, shift % 103 + 1)
+
+
+def check_arrays(part, lengths):
+    """cov_radii / vdw_radii / element_names / element_symbols of an array of n atomic numbers give, atom by atom, what the single lookup of
+    that atom's element gives - for EVERY length n of an interval (a grouped or chunked fast path switching on at some size has nowhere to
+    hide below the bound) and five arrangements of the elements (scrambled, file order of a cell, sorted, reversed, one element)"""
+    from chmpy.core import element as E
+    from chmpy.core.element import Element
+
+    single = {}
+    for z in range(1, 104):
+        e = Element.from_atomic_number(z)
+        single[z] = (float(e.cov), float(e.vdw), str(e.name), str(e.symbol))
+    for n in lengths:
+        for pattern in ARRAY_PATTERNS:
+            arr = array_of(pattern, n, n)
+            part.ev()
+            case = {"kind": "array", "n": int(n), "pattern": pattern}
+            for dt in ((np.int64, np.int32) if n % 8 == 0 else (np.int64,)):
+                a = arr.astype(dt)
+                keep = a.copy()
+                try:
+                    outs = [E.cov_radii(a), E.vdw_radii(a), E.element_names(a), E.element_symbols(a)]
+                except Exception as ex:
+                    part.fail("array-raise:%s" % pattern, "vectorised helpers raised %r for %d atomic numbers (%s)" % (ex, n, pattern), case)
+                    break
+                part.trace()
+                part.tr(4 * n)
+                if not np.array_equal(a, keep):
+                    part.fail("array-input-changed:%s" % pattern, "a vectorised helper changed the caller's array of %d atomic numbers (%s)" % (n, pattern), case)
+                    break
+                bad = None
+                for col, o in enumerate(outs):
+                    if len(o) != n:
+                        bad = "%s returns %d entries for %d atoms" % (("cov_radii", "vdw_radii", "element_names", "element_symbols")[col], len(o), n)
+                        break
+                    for i in range(n):
+                        want = single[int(a[i])][col]
+                        if (abs(float(o[i]) - want) > 1e-6) if col < 2 else (str(o[i]) != want):
+                            bad = "%s: atom %d (Z=%d) gets %r, the single lookup gives %r" % (("cov_radii", "vdw_radii", "element_names", "element_symbols")[col], i, int(a[i]), o[i], want)
+                            break
+                    if bad:
+                        break
+                if bad:
+                    part.fail("array:%s:%s" % (pattern, "n>=64" if n >= 64 else "n<64"), "array of %d atomic numbers (%s, %s): %s" % (n, pattern, np.dtype(dt).name, bad), case)
+                    break
+            part.state(("array", pattern, int(n)))
+        part.outcome(("array", int(n) // 32))
+
+
 def check_integers(part, ns):
     from chmpy.core import element as E
     from chmpy.core.element import Element
@@ -368,6 +434,8 @@ def worker(part, job):
         check_rejection_history(part)
     elif kind == "formulas":
         check_formulas(part, payload)
+    elif kind == "arrays":
+        check_arrays(part, payload)
 
 
 def run(ctx):
@@ -376,6 +444,8 @@ def run(ctx):
     jobs = [("elements", c) for c in chunked(range(1, 104), 8)]
     jobs += [("integers", c) for c in chunked(range(-200, 301), 64)]
     jobs.append(("misc", None))
+    array_to = 2100 if ctx.thorough else 420
+    jobs += [("arrays", c) for c in chunked(range(1, array_to + 1), 30)]
     alphabet = [1, 6, 7, 8, 9, 17, 26, 11, 92, 2, 35, 14]
     forms = []
     for k in (1, 2, 3):
@@ -399,7 +469,8 @@ def run(ctx):
     ctx.rule = ("Z=1..103 x %d lookup routes (int/numpy ints/decimal strings/symbol in 3 cases/name in 3 cases/labels with %d digit strings x %d suffixes/"
                 "padding) + vectorised helpers; all integers -200..300 x 10 numeric routes; %d non-elements; 103^2 ordered pairs; %d formula "
                 "multisets; distinct = elements and integers" % (nroutes, len(DIGITS), len(SUFFIXES), len(NON_ELEMENTS) + 4, len(forms)))
-    ctx.bounds = {"elements": 103, "routes_per_element": nroutes, "integers": [-200, 300]}
+    ctx.rule += "; vectorised helpers on arrays of EVERY length 1..%d x %d arrangements (atom by atom vs the single lookup)" % (array_to, len(ARRAY_PATTERNS))
+    ctx.bounds = {"elements": 103, "routes_per_element": nroutes, "integers": [-200, 300], "array_lengths": [1, array_to]}
     ctx.assumptions = ["symbols and English names are compared with a hand-written reference list (IUPAC spellings aluminium, caesium, sulfur)",
                        "radii and mass are compared with the library's own table row through every route (cross-route consistency), not with external data"]
     ctx.pmap(worker, jobs)
@@ -410,6 +481,8 @@ def replay(ctx, case):
     k = case.get("kind")
     if k in ("lookup", "vector"):
         check_elements(ctx, [case["z"]])
+    elif k == "array":
+        check_arrays(ctx, [case["n"]])
     elif k == "integer":
         check_integers(ctx, [case["n"]])
     elif k == "non":
